@@ -139,9 +139,8 @@ Hypothesis Hacc : acc_chain' n0 theirs.
 Hypothesis Hheavy : forall j, (j < length theirs)%nat -> top_cd (apply_ext' n0 (firstn j theirs)) < top_cd peer.
 Hypothesis Hbound : top_h peer + pbd + 2 < two64.
 Hypothesis Hpbd : 1 <= pbd.
-Hypothesis Hreach : forall j, (j < length theirs)%nat ->
-  let n := apply_ext' n0 (firstn j theirs) in
-  top_h n < top_h peer -> N.of_nat (length shared + j) <= top_h n + pbd + 1.
+Hypothesis Hheld : forall j, (j <= length theirs)%nat ->
+  N.of_nat (length shared + j) <= held_height (apply_ext' n0 (firstn j theirs)) + 1.
 
 (* the last block of the peer's branch is the peer's tip; once it is stored our tip is that block *)
 Lemma final_tip : top_cd peer <= top_cd (apply_ext' n0 theirs) /\ top (apply_ext' n0 theirs) = top peer.
@@ -197,14 +196,14 @@ Proof.
     by (rewrite <- Hsplit; apply (main_chain_link gh); exact HCpeer).
   assert (Hinj : NoDup (map b_hash (shared ++ theirs))) by (rewrite <- Hsplit; apply (main_chain_nodup gh); exact HCpeer).
   destruct (sync_fork_rounds cfg genesis_addr team_key peer n0 shared theirs Hlen Hshared_ne Hat Hheight Hlink Hinj Hnz Hshared Hnew
-              Hacc Hheavy Hdone Hbound Hpbd Hreach s H1 H2 H3 H4) as (bound1 & Hb1).
+              Hacc Hheavy Hdone Hbound Hpbd Hheld s H1 H2 H3 H4) as (bound1 & Hb1).
   destruct (sync_fork_prounds cfg genesis_addr team_key peer n0 shared theirs Hlen Hshared_ne Hat Hheight Hlink Hinj Hnz Hshared Hnew
-              Hacc Hheavy Hdone Hbound Hpbd Hreach s H1 H2 H3 H4) as (bound2 & Hb2).
+              Hacc Hheavy Hdone Hbound Hpbd Hheld s H1 H2 H3 H4) as (bound2 & Hb2).
   exists (Nat.max bound1 bound2). intros now Hpre.
   assert (Hstore : forall b, In b (main_chain peer) -> get_block (apply_ext' n0 theirs) (b_hash b) = Some b).
   { intros b Hin. rewrite Hsplit in Hin.
     apply (final_store cfg genesis_addr team_key peer n0 shared theirs Hlen Hshared_ne Hat Hheight Hlink Hinj Hnz Hshared Hnew
-             Hacc Hheavy Hdone Hbound Hpbd Hreach b Hin). }
+             Hacc Hheavy Hdone Hbound Hpbd Hheld b Hin). }
   assert (Hk : forall k, (Nat.max bound1 bound2 <= k)%nat ->
        let s' := srounds cfg genesis_addr team_key peer now k s in
        sy_node s' = apply_ext' n0 theirs /\
